@@ -23,6 +23,28 @@ def read(p):
         return ""
 
 
+def all_rs(root):
+    out = []
+    for base, _, files in os.walk(os.path.join(REPO, root)):
+        for f in sorted(files):
+            if f.endswith(".rs") and f != "verif.rs":
+                out.append(os.path.relpath(os.path.join(base, f), REPO))
+    return sorted(out)
+
+
+def read_where(expected, pattern, root="src"):
+    """the text of the file `expected`; if the pattern is not (or no longer) in it — the item moved in a
+    reorganisation of the modules — the text of the first source file under `root` that contains it"""
+    src = read(expected)
+    if re.search(pattern, src):
+        return src
+    for rel in all_rs(root):
+        t = read(rel)
+        if re.search(pattern, t):
+            return t
+    return src
+
+
 def strip_comments(src):
     src = re.sub(r"//[^\n]*", "", src)
     return src
@@ -40,7 +62,7 @@ status = {}
 out = []
 
 # --- C13: built-in constraints: (NAME, implementing type) in source order, and the registration order of Router::new
-src = strip_comments(read("src/constraints.rs"))
+src = strip_comments(read_where("src/constraints.rs", r"impl\s+Constraint\s+for\s+u8\b"))
 impls = re.findall(r"impl\s+Constraint\s+for\s+(\w+)\s*\{\s*const\s+NAME\s*:\s*&'static\s+str\s*=\s*\"([^\"]*)\"", src)
 checks = re.findall(r"impl\s+Constraint\s+for\s+(\w+)\s*\{.*?fn\s+check\s*\([^)]*\)\s*->\s*bool\s*\{\s*(.*?)\s*\}\s*\}", src, flags=re.S)
 status["builtin_impls"] = "ok" if impls else "unavailable"
@@ -51,7 +73,7 @@ fromstr = [t for t, body in checks if re.sub(r"\s+", "", body) == "part.parse::<
 status["builtin_checks"] = "ok" if checks else "unavailable"
 out.append("/-- the types whose `check` is literally `part.parse::<Self>().is_ok()` -/")
 out.append("def builtinFromStr : List Bytes := " + lst(bl(t) for t in fromstr))
-rsrc = strip_comments(read("src/router.rs"))
+rsrc = strip_comments(read_where("src/router.rs", r"router\.constraint::<u8>\(\)"))
 m = re.search(r"pub fn new\(\)\s*->\s*Self\s*\{(.*?)\n    \}", rsrc, flags=re.S)
 regs = re.findall(r"router\.constraint::<(\w+)>\(\)", m.group(1)) if m else []
 status["builtin_registrations"] = "ok" if regs else "unavailable"
@@ -59,7 +81,7 @@ out.append("/-- `router.constraint::<T>()` calls of `Router::new`, in order -/")
 out.append("def builtinRegistrations : List Bytes := " + lst(bl(t) for t in regs))
 
 # --- C11: characters that are not allowed in parameter and constraint names
-psrc = strip_comments(read("src/parser.rs"))
+psrc = strip_comments(read_where("src/parser.rs", r"INVALID_PARAM_CHARS\s*:"))
 m = re.search(r"const\s+INVALID_PARAM_CHARS\s*:\s*\[u8;\s*\d+\]\s*=\s*\[(.*?)\];", psrc, flags=re.S)
 chars = re.findall(r"b'(\\?.)'", m.group(1)) if m else []
 status["invalid_param_chars"] = "ok" if chars else "unavailable"
@@ -67,7 +89,7 @@ out.append("/-- `INVALID_PARAM_CHARS` of src/parser.rs -/")
 out.append("def invalidParamChars : Bytes := " + lst(str(ord(c[-1])) for c in chars))
 
 # --- C03 / C15: order of the kinds in Node::search and in Display
-ssrc = strip_comments(read("src/node/search.rs"))
+ssrc = strip_comments(read_where("src/node/search.rs", r"pub fn search<"))
 m = re.search(r"pub fn search<.*?\n    \}\n", ssrc, flags=re.S)
 KIND = {"static": 0, "dynamic_constrained": 1, "dynamic": 2, "wildcard_constrained": 3, "wildcard": 4,
         "end_wildcard_constrained": 5, "end_wildcard": 6}
@@ -105,7 +127,7 @@ out.append("/-- `Router::search` takes `&self` (1/0) -/")
 out.append(f"def searchTakesSharedRef : Nat := {selfref}")
 
 # --- C17: the OCI example's route table and name pattern
-osrc = strip_comments(read("examples/oci/src/lib.rs"))
+osrc = strip_comments(read_where("examples/oci/src/lib.rs", r"router\.route\(", root="examples/oci/src"))
 routes = []
 for call in re.findall(r"router\.route\((.*?)\);", osrc, flags=re.S):
     parts = [p.strip() for p in call.split(",") if p.strip()]
@@ -114,7 +136,7 @@ for call in re.findall(r"router\.route\((.*?)\);", osrc, flags=re.S):
 status["oci_routes"] = "ok" if routes else "unavailable"
 out.append("/-- `router.route(Method::M, \"template\", handler)` calls of examples/oci/src/lib.rs: (M, template, handler) -/")
 out.append("def ociRoutes : List (Bytes × Bytes × Bytes) := " + lst(f"({bl(m_)}, {bl(t)}, {bl(h)})" for m_, t, h in routes))
-nsrc = read("examples/oci/src/constraints/name.rs")
+nsrc = read_where("examples/oci/src/constraints/name.rs", r"Regex::new\(", root="examples/oci/src")
 m = re.search(r"Regex::new\(r\"(.*?)\"\)", nsrc, flags=re.S)
 pattern = m.group(1) if m else ""
 status["oci_name_pattern"] = "ok" if pattern else "unavailable"
@@ -126,8 +148,8 @@ out.append("def ociConstraintName : Bytes := " + bl(m.group(1) if m else ""))
 # --- C19: the format strings of the route-table errors (`impl Display` of src/errors/{insert,delete,constraint}.rs)
 def display_formats(rel):
     """[(Variant, format string)] of the `write!(f, "...")` arms of the file's `impl Display`, in source order"""
-    src_ = read(rel)
-    m_ = re.search(r"impl\s+Display\s+for\s+\w+\s*\{(.*?)\n\}\n", src_, flags=re.S)
+    src_ = read_where(rel[0], r"impl\s+Display\s+for\s+" + rel[1] + r"\b")
+    m_ = re.search(r"impl\s+Display\s+for\s+" + rel[1] + r"\s*\{(.*?)\n\}\n", src_, flags=re.S)
     if not m_:
         return []
     body_ = m_.group(1)
@@ -146,7 +168,7 @@ def display_formats(rel):
 
 
 fmts = []
-for rel in ["src/errors/insert.rs", "src/errors/delete.rs", "src/errors/constraint.rs"]:
+for rel in [("src/errors/insert.rs", "InsertError"), ("src/errors/delete.rs", "DeleteError"), ("src/errors/constraint.rs", "ConstraintError")]:
     fmts += display_formats(rel)
 status["error_formats"] = "ok" if len(fmts) >= 5 else "unavailable"
 out.append("/-- (variant, format string) of the `write!` arms of the Display impls of InsertError, DeleteError, ConstraintError -/")
